@@ -19,6 +19,9 @@ pub enum Fail {
     DivideByZero,
     NotBinary,
     NotU32,
+    /// a u32 assertion (u32assert / u32assert2 / u32assertw) failed: the error carries the
+    /// instruction's error code (0 when none is given)
+    NotU32Code(u32),
     /// failed assertion with its error code
     Assert(u32),
     AdviceEmpty,
@@ -745,8 +748,7 @@ impl<'a> Vm<'a> {
                 };
                 if (0..n).any(|i| self.peek(i) >= U32) {
                     // documented: "Fails if a >= 2^32"; the error carries the code
-                    let _ = code;
-                    return Err(Stop::Fail(Fail::NotU32));
+                    return Err(Stop::Fail(Fail::NotU32Code(code)));
                 }
             }
             "u32cast" => {
